@@ -18,6 +18,22 @@ import (
 const c18Prelude = `
 function c18_set(t,k,v) t[k]=v end
 function c18_len(t) return #t end
+-- the table library works on the RAW table (lua_rawgeti / lua_rawseti / lua_objlen): a list that carries a metatable
+-- with every event behaves exactly like a plain one, and no handler runs while a library function is active
+INLIB, METACALLS = false, 0
+local function noted(f) return function(...) if INLIB then METACALLS = METACALLS + 1 end return f(...) end end
+local c18_mt = {
+  __len = noted(function(t) return table.getn(t) end),
+  __index = noted(function(t, k) return nil end),
+  __newindex = noted(function(t, k, v) rawset(t, k, v) end),
+  __concat = noted(function(a, b) return "meta" end),
+  __call = noted(function(...) return "called" end),
+  __lt = noted(function(a, b) return false end), __le = noted(function(a, b) return true end), __eq = noted(function(a, b) return false end),
+  __tostring = noted(function(t) return "a list" end),
+}
+function c18_setmeta(t) return setmetatable(t, c18_mt) end
+function c18_metacalls() local n = METACALLS METACALLS = 0 return n end
+function c18_inlib(b) INLIB = b end
 -- comparator factory: kind, parameter, call log (flat table), the table being sorted, snapshot width (0 = none)
 function c18_mkcmp(kind, p, log, t, snapn)
   local inner
@@ -76,7 +92,7 @@ func newC18World() *c18World {
 	}
 	w := &c18World{L: L, fns: map[string]*lua.LFunction{}}
 	w.w = &tblWorld{L: L, tbls: map[int]*lua.LTable{}, refs: map[int]lua.LValue{}, rt: NewRefTable(), fns: map[string]*lua.LFunction{}}
-	for _, n := range []string{"c18_set", "c18_len", "c18_mkcmp", "unpack"} {
+	for _, n := range []string{"c18_set", "c18_len", "c18_mkcmp", "unpack", "c18_setmeta", "c18_metacalls"} {
 		w.fns[n] = L.GetGlobal(n).(*lua.LFunction)
 	}
 	tab := L.GetGlobal("table").(*lua.LTable)
@@ -102,6 +118,10 @@ func (w *c18World) call(fn string, nret int, args ...lua.LValue) (res []lua.LVal
 			L.SetTop(top)
 		}
 	}()
+	if !strings.HasPrefix(fn, "c18_") {
+		L.SetGlobal("INLIB", lua.LTrue)
+		defer L.SetGlobal("INLIB", lua.LFalse)
+	}
 	err := L.CallByParam(lua.P{Fn: w.fns[fn], NRet: nret, Protect: true}, args...)
 	if err != nil {
 		L.SetTop(top)
@@ -179,6 +199,14 @@ func execC18(ops []Op) []string {
 	w.tb = w.L.NewTable()
 	w.L.SetTop(0)
 	var out []string
+	// every third case works on lists that carry a metatable with all events (see the prelude)
+	withMeta := (len(ops)+len(ops[len(ops)-1].Args))%3 == 0
+	w.L.SetGlobal("INLIB", lua.LFalse)
+	w.call("c18_metacalls", 1)
+	w.L.SetTop(0)
+	if withMeta {
+		w.call("c18_setmeta", 0, w.tb)
+	}
 	defer func() {
 		if r := recover(); r != nil {
 			w.L.Close()
@@ -226,6 +254,9 @@ func execC18(ops []Op) []string {
 		switch a[0] {
 		case "new":
 			w.tb = w.L.NewTable()
+			if withMeta {
+				w.call("c18_setmeta", 0, w.tb)
+			}
 			emit(a, "")
 		case "set":
 			_, st := w.call("c18_set", 0, w.tb, w.w.dec(a[1]), w.w.dec(a[2]))
@@ -364,6 +395,12 @@ func execC18(ops []Op) []string {
 			}
 		default:
 			panic("bad op " + a[0])
+		}
+		if withMeta {
+			if res, st := w.call("c18_metacalls", 1); st == "ok" && len(res) == 1 && res[0] != lua.LNumber(0) {
+				crash("table-library-ran-a-metamethod_"+strings.Join(a, "_"), res[0].String()+"_handler_calls_while_a_table_function_was_active")
+				return out
+			}
 		}
 	}
 	return out
